@@ -76,6 +76,9 @@ public:
    */
   size_t getSize();
 
+  /** Stores the hash in the layout every representation loads from */
+  void save(std::ostream &fp);
+
   /** Loads a hash from a file*/
   static HashBBdh *load(std::istream &fp);
 
@@ -83,5 +86,6 @@ public:
 
 protected:
   BitSequence *offsets;
+  uint hashbits; // field width of the stored sequence (needed by save)
 };
 #endif
